@@ -25,7 +25,7 @@ import vlib
 from extractors import t11
 
 HEADER = """From Coq Require Import ZArith List Bool String.
-From C11 Require Import Prim Schema Json Types ProofsSchema ProofsGen.
+From C11 Require Import Prim Schema Json Types ProofsSchema JsonText JsonSchema Fixup ProofsGen.
 From Gen Require Import Schemas.
 Import ListNotations.
 Open Scope Z_scope.
@@ -897,6 +897,125 @@ def simple(ops: list[Any]) -> bool:
     return True
 
 
+def coq_jtext(v: Any) -> str:
+    if v is None:
+        return "JNull"
+    if isinstance(v, bool):
+        return f"JBool {'true' if v else 'false'}"
+    if isinstance(v, int):
+        return f"JInt ({v})"
+    if isinstance(v, str):
+        return "JStr [" + "; ".join(str(ord(c)) for c in v) + "]"
+    if isinstance(v, (list, tuple)):
+        return "JArr [" + "; ".join(coq_jtext(x) for x in v) + "]"
+    return "JObj [" + "; ".join(f"([{'; '.join(str(ord(c)) for c in k)}], {coq_jtext(v[k])})" for k in sorted(v)) + "]"
+
+
+def json_text_tie(ctx: vlib.Ctx, exprs: list[str], expect: list[Any], names: list[str]) -> int:
+    """JsonText.v vs the encoder/decoder mypy really uses (mypy.util.json_dumps / json_loads): model text = real bytes,
+    model parser reads the real bytes back to the same value"""
+    from mypy.util import json_dumps, json_loads
+    rng = vlib.Rng(ctx.seed, "jsontext")
+    alphabet = [chr(c) for c in (97, 90, 48, 32, 34, 92, 47, 10, 9, 13, 8, 12, 0, 31, 127, 128, 233, 255, 0x4e2d, 0x2028, 0xffff, 0x10000, 0x1F600, 0x10FFFF, 123, 125, 91, 44, 58)]
+
+    def gen(d: int) -> Any:
+        k = rng.randrange(8 if d > 0 else 5)
+        if k == 0:
+            return rng.choice([None, True, False])
+        if k in (1, 2):
+            return rng.choice([0, -1, 7, 10, -10, 99, 100, 2 ** 31, -(2 ** 63), 2 ** 64, 10 ** 40, -(10 ** 25) + 1, rng.randint(-10 ** 6, 10 ** 6)])
+        if k in (3, 4):
+            return "".join(rng.choice(alphabet) for _ in range(rng.choice([0, 1, 2, 5, 12])))
+        if k == 5:
+            return [gen(d - 1) for _ in range(rng.choice([0, 1, 2, 4]))]
+        return {"".join(rng.choice(alphabet) for _ in range(rng.choice([0, 1, 3]))): gen(d - 1) for _ in range(rng.choice([0, 1, 2, 4]))}
+    vals = [None, True, False, 0, 10 ** 30, "", chr(34), chr(92), "".join(alphabet), [], {}, [[], {}], {"": [None], "a": {"b": [1, "x"]}}] + [gen(3) for _ in range(ctx.n(60, 400))]
+    n = 0
+    for v in vals:
+        real = json_dumps(v)
+        if json_loads(real) != v:
+            ctx.violation(f"json-text-roundtrip:{real[:40]!r}", "json_loads(json_dumps(v)) != v", {"kind": "json_text", "text": real.decode()[:500]})
+        exprs.append(f"Some (json_dumps ({coq_jtext(v)}))")
+        expect.append(list(real))
+        names.append(f"json_dumps {real[:40]!r}")
+        exprs.append(f"match json_loads {coq_bytes(real)} with Some v => Some (json_dumps v) | None => None end")
+        expect.append(list(real))
+        names.append(f"json_loads {real[:40]!r}")
+        n += 2
+    ctx.cov["json_text_cases"] = n
+    return n
+
+
+def lookup_tie(ctx: vlib.Ctx) -> None:
+    """Fixup.lookup_fq vs the real mypy.lookup.lookup_fully_qualified on generated module sets with nested classes,
+    symbols shadowing sub-module names, missing names and names that run through non-class symbols"""
+    from mypy import nodes as N
+    from mypy.lookup import lookup_fully_qualified
+    rng = vlib.Rng(ctx.seed, "lookup")
+    comps = ["a", "b", "c", "d"]
+    exprs, real = [], []
+    idmap: dict[int, int] = {}
+    keep: list[Any] = []
+    for _ in range(ctx.n(12, 60)):
+        ids = [0]
+
+        def table(depth: int) -> tuple[Any, str, list[list[str]]]:
+            st = N.SymbolTable()
+            items = []
+            paths: list[list[str]] = []
+            for nm in rng.sample(comps, rng.choice([0, 1, 2, 3])):
+                ids[0] += 1
+                me = ids[0]
+                if depth > 0 and rng.random() < 0.5:
+                    sub, subc, subp = table(depth - 1)
+                    paths += [[nm] + q for q in subp]
+                    ti = N.TypeInfo(sub, N.ClassDef(nm, N.Block([])), "m")
+                    node: Any = ti
+                    items.append(f'("{nm}"%string, Cls {me} {subc})')
+                else:
+                    node = N.Var(nm)
+                    items.append(f'("{nm}"%string, Sym {me})')
+                sn = N.SymbolTableNode(N.GDEF, node)
+                paths.append([nm])
+                idmap[id(sn)] = me
+                keep.append(sn)
+                st[nm] = sn
+            return st, "[" + "; ".join(items) + "]", paths
+        known: list[list[str]] = []
+        mods: dict[str, Any] = {}
+        mcoq = []
+        for mname in rng.sample(["a", "b", "a.b", "a.b.c", "c.d", "d"], rng.choice([1, 2, 3, 4])):
+            f = N.MypyFile([], [])
+            f._fullname = mname
+            f.names, tc, ps = table(2)
+            known += [mname.split(".") + q for q in ps]
+            mods[mname] = f
+            mcoq.append("([" + "; ".join(f'"{p}"%string' for p in mname.split(".")) + f"], {tc})")
+        for _ in range(25):
+            if known and rng.random() < 0.6:
+                path = list(rng.choice(known))
+                if rng.random() < 0.25:
+                    path = path + [rng.choice(comps)]       # one component too many (through a symbol / missing member)
+            else:
+                path = [rng.choice(comps) for _ in range(rng.choice([1, 2, 3, 4, 5]))]
+            r = lookup_fully_qualified(".".join(path), mods)
+            real.append(None if r is None else idmap[id(r)])
+            exprs.append("match lookup_fq [" + "; ".join(mcoq) + "] [" + "; ".join(f'"{p}"%string' for p in path) + "] with Some e => Some (entry_id e) | None => None end")
+    out = ctx.eval_cases("lookup", HEADER.replace("Open Scope Z_scope.", "Open Scope Z_scope.\nFrom Coq Require Import String."), exprs, per_file=200)
+    if out is None:
+        return
+    bad = 0
+    for e, r, o in zip(exprs, real, out):
+        m = None if o.startswith("None") else int(re.findall(r"\d+", o)[0])
+        if m != r:
+            bad += 1
+            if bad <= 3:
+                ctx.broke("C", "Fixup.lookup_fq vs lookup_fully_qualified", f"model {o} real {r}: {e[:300]}")
+    ctx.add("evaluations", len(exprs))
+    ctx.add("traces_validated_against_impl", len(exprs))
+    ctx.cov["lookup_cases"] = {"n": len(exprs), "found": sum(1 for r in real if r is not None)}
+
+
 def instance_tie(ctx: vlib.Ctx, exprs: list[str], expect: list[Any], names: list[str]) -> int:
     """Types.v Instance model vs the real Instance.write / Instance.read on constructed instances: every fast-path
     name and two ordinary names x {plain, extra_attrs (full / empty), last_known_value, args, everything}.
@@ -1090,6 +1209,8 @@ def schema_stage(ctx: vlib.Ctx, res: dict[str, Any]) -> None:
             ctx.violation(f"literal-roundtrip:{lv!r}"[:80], "read_literal(write_literal(v)) != v", {"kind": "literal", "value": repr(lv)})
         n_ext += 1
     n_ext += instance_tie(ctx, exprs, expect, names)
+    n_ext += json_text_tie(ctx, exprs, expect, names)
+    lookup_tie(ctx)
     out = ctx.eval_cases("schema", HEADER, exprs, per_file=150)
     if out is None:
         return
